@@ -482,7 +482,7 @@ class AbstractInventory(ABC):
 
         """
 
-        other = Inventory(add_contents, units, True, self.decay_data)
+        other = self.__class__(add_contents, units, True, self.decay_data)
         self.contents = (self + other).contents
 
     def subtract(
@@ -514,7 +514,7 @@ class AbstractInventory(ABC):
 
         """
 
-        other = Inventory(sub_contents, units, True, self.decay_data)
+        other = self.__class__(sub_contents, units, True, self.decay_data)
         self.contents = (self - other).contents
 
     def __add__(self, other: "AbstractInventory") -> "AbstractInventory":
